@@ -12,6 +12,7 @@ from .common import Disagreement, drive, qs, parse_qs, q, log
 from fractions import Fraction
 
 PROP_MODULE = 'PbVerif.Props.C02'
+GEN_TABLES = ('Registry',)
 RULE = ('cases = (method, dimension, which axes are permuted, permutation kind, weights/alpha given or not, '
         'max_iter choice, size); non-trivial = the permutation is not the identity and the call returned; '
         'distinct by the canonical tuple')
@@ -263,8 +264,22 @@ def run_case(ctx, rng, two_d, name, entry, n, pkind, axes, want_weights, mi_choi
                 if 'tol_history' in ps and 'tol_history' in pu:
                     th_ok = len(np.atleast_1d(ps['tol_history'])) == len(np.atleast_1d(pu['tol_history']))
                 if th_ok and d_obs <= 1000 * d_pert:
-                    ctx.count('ill-conditioned-case')
-                    out = [d for d in out if d not in soft]
+                    # the excuse is granted per output: an output is excused only if ITS OWN difference is within 1000x the
+                    # movement of that same output under the perturbation (a mask or weight array that is simply not
+                    # un-sorted differs by O(1) while the perturbation does not move it at all)
+                    keys_p = cmp.split(rs2[2], shape, name)[0]
+
+                    def moved(label):
+                        if label == 'baseline':
+                            return d_pert
+                        if label in keys_p and label in keys_s and np.shape(keys_p[label]) == np.shape(keys_s[label]):
+                            return float(np.max(np.abs(np.asarray(keys_p[label], dtype=float) - np.asarray(keys_s[label], dtype=float))))
+                        return 0.0
+                    excused = [d for d in soft if d.stage == 'c02.scalars' or
+                               d.replay.get('max_abs_diff', np.inf) <= 1000 * max(moved(d.replay.get('label', 'baseline')), d_pert if d.replay.get('label') == 'baseline' else 0.0)]
+                    if excused:
+                        ctx.count('ill-conditioned-case')
+                    out = [d for d in out if d not in excused]
         except Exception:      # noqa: BLE001
             pass
     return out
@@ -407,6 +422,27 @@ def search(ctx, hints, lean_failed):
     """Direct evaluation of the property on the real code with fresh seeds/larger variety."""
     found = []
     rng, plan = cases(ctx)
+    # the registry obligation broke: methods whose per-point outputs are not all declared for un-sorting are driven first, on
+    # larger data (masks / weights that are almost constant on small data hide a missing un-sort)
+    try:
+        from . import translate
+        reg1, reg2 = M.registry(False), M.registry(True)
+        flagged = [(r[0], r[1]) for r in translate.gen_registry()[1] if not r[5] and (set(r[6]) | set(r[7])) - set(r[2])]
+        directed = []
+        for two_d, name in flagged:
+            e = (reg2 if two_d else reg1)[name]
+            for pk in ('random', 'rotate', 'random'):
+                directed.append((True, name, e, (23, 19), pk, (0, 1), False, None) if two_d else (False, name, e, 160, pk, (0,), False, None))
+            # ... and with every single-parameter variant on several sizes (a mask that is all True / all False says nothing)
+            for kwv in M.single_variants(name, e, two_d):
+                for size in (((14, 12), (23, 19)) if two_d else (40, 100, 300)):
+                    directed.append((two_d, name, e, size, 'random', (0, 1) if two_d else (0,), False, None, 'class', kwv))
+        plan = directed + plan
+        if flagged:
+            ctx.notes.append(f'registry: per-point outputs not declared in sort_keys for {flagged}; driven first on larger data')
+    except Exception:
+        import traceback
+        traceback.print_exc()
     for item in plan:
         try:
             found += [d for d in run_case(ctx, rng, *item) if d.property_level]
